@@ -40,6 +40,20 @@ let install register get =
         str_of q ^ ":" ^ (match k with FsTree.KDir -> "d" | FsTree.KFile -> "f" | FsTree.KLink -> "l")) t) in
       Printf.sprintf "res=%s tree=%s" (match c with FsTree.TOk -> "ok" | FsTree.TNotExist -> "notexist" | FsTree.TOther -> "other")
         (if ents = [] then "-" else String.concat ";" ents) in
+  (* kind prebuf (c11): Serve's epilogue (coq/Srv/Shutdown.v) on the schedule "everything received, input ended, then the
+     workers": what an observer of the finished Serve sees - requests served after the cleanup, handles nobody closed *)
+  register "prebuf" (fun kv ->
+    let reqs = nat_of_int (int_of_string ("0x" ^ get kv "requests")) and opens = nat_of_int (int_of_string ("0x" ^ get kv "opens")) in
+    let n = nat_of_int 9 in (* eight transfer workers and the command worker *)
+    match Shutdown.shrun true (Shutdown.sh0 true n) (Shutdown.eager_schedule n reqs opens) with
+    | Some s -> let (a, u) = Shutdown.after_return s in Printf.sprintf "after=%x unclosed=%x" (int_of_nat a) (int_of_nat u)
+    | None -> "not-a-run");
+  (* kind cwrite (c15): the writer of each position of the file after n concurrent Write calls on one File, read by the model's
+     layout_ok (coq/Xfer/OffsetLock.v); the theorem then puts the offset at n *)
+  register "cwrite" (fun kv ->
+    let n = int_of_string ("0x" ^ get kv "calls") in
+    let layout = List.map (fun t -> nat_of_int (int_of_string t)) (List.filter (fun t -> t <> "") (String.split_on_char ',' (get kv "layout"))) in
+    if OffsetLock.layout_ok (nat_of_int n) layout then Printf.sprintf "off=%x" n else "layout-not-serial");
   register "replymap" (fun kv ->
     let n = nat_of_int (int_of_string (get kv "n")) in
     let e = match get kv "err" with
